@@ -21,7 +21,7 @@ import (
 var otherFS string // a directory on another file system (rename from the temp dir fails with EXDEV), "" if none
 
 func TestMain(m *testing.M) {
-	ev.Rule("cases = file-system scenarios in a fresh directory: operation (CopyFile / MoveFile) x size (0, 1, 4095, 4096, 4097, 64 KiB, 1 MiB+3, thorough also 5 MiB) x source (regular file, through a symlink, missing) x destination " +
+	ev.Rule("cases = file-system scenarios in a fresh directory: operation (CopyFile / MoveFile) x size (0, 1, 4095, 4096, 4097, 64 KiB, 1 MiB+3, 2 MiB, 2 MiB+1, 4 MiB+17, thorough also 5 MiB) x source (regular file, through a symlink, missing) x destination " +
 		"(missing, existing shorter / longer / same length, the same path, a ./-spelling of it, a symlink to the source, a hard link to the source, a directory, missing parent, parent that is a file, and for MoveFile a path on another file system incl. an existing file and a symlink pointing back to the source); " +
 		"oracle = snapshot of the source bytes before the call: nil result => destination bytes = snapshot (CopyFile: source too, returned count = length; MoveFile: source path gone unless it is the destination), error => source still there with the snapshot bytes; never a panic; " +
 		"non-trivial = aliasing, pre-existing destination, a failing step or a cross-device move; distinct by scenario hash")
@@ -444,12 +444,12 @@ func firstDiff(a, b []byte) int {
 	return len(b)
 }
 
-var sizesQuick = []int{0, 1, 4095, 4096, 4097, 65536, 3 * 65536, 1<<20 + 3, 1 << 20}
+var sizesQuick = []int{0, 1, 4095, 4096, 4097, 65536, 3 * 65536, 1<<20 + 3, 1 << 20, 1 << 21, 1<<21 + 1, 1<<22 + 17} // a size may select another way of copying
 
 // TestAllCombinations enumerates operation x source x destination for a few sizes.
 func TestAllCombinations(t *testing.T) {
 	si, sn := rt.Shard()
-	sizes := []int{0, 1, 4097, 2 * 65536}
+	sizes := []int{0, 1, 4097, 2 * 65536, 1 << 21}
 	if rt.Thorough() {
 		sizes = append(sizesQuick, 5<<20)
 	}
